@@ -227,7 +227,7 @@ def correspondence(ctx):
 # ------------------------------------------------------------------ oracle (implementation only)
 
 def check_calendar(ctx, cal, pname, cls=None):
-    inp = {'ical': T.safe_ical(cal), 'provider': pname}
+    inp = T.describe(cal, provider=pname)
     want_used = ref_used(cal)
     try:
         used = cal.get_used_tzids()
@@ -321,13 +321,13 @@ def oracle(ctx):
 
 def replay(ctx, data):
     import icalendar
-    from icalendar import Calendar
     inp = data['input']
     if inp.get('provider') == 'pytz':
         icalendar.use_pytz()
     try:
-        if 'ical' in inp and not inp['ical'].startswith('<to_ical failed'):
-            check_calendar(ctx, Calendar.from_ical(inp['ical'].encode('utf-8')), inp.get('provider', 'zoneinfo'))
+        cal = T.restore(inp)
+        if cal is not None:
+            check_calendar(ctx, cal, inp.get('provider', 'zoneinfo'))
         else:
             oracle(ctx)
     finally:
